@@ -14,6 +14,12 @@ const KINDS: [(bool, u8); 10] = [(true, 1), (false, 2), (false, 11), (false, 12)
 
 fn faults_for(kind: u8) -> Vec<Act> {
     let mut v = vec![Act::Drop, Act::Dup, Act::Swap];
+    if matches!(kind, 1 | 2 | 11 | 12 | 16) {
+        // the path re-fragments this message on every (re)transmission, differently each time, and loses the
+        // tail of the first transmission
+        v.push(Act::RefragTailLost(if kind == 11 { 100 } else { 9 }));
+        v.push(Act::RefragEvery3(if kind == 11 { 77 } else { 5 }));
+    }
     match kind { 2 | 12 | 16 => { v.push(Act::Fragment(20)); v.push(Act::FragDupMid(15)); v.push(Act::FragReorder(15)); }
         11 => { v.push(Act::Fragment(100)); v.push(Act::Fragment(1)); v.push(Act::FragDupMid(90)); v.push(Act::FragReorder(90)); } 1 => { v.push(Act::Fragment(40)); v.push(Act::FragDupMid(20)); }, _ => {} }
     v
